@@ -43,4 +43,16 @@ theorem api_methods_tied {α : Type} (F : FieldOps α) (e v : Pt α) :
     GenElementAPI.equal_e_v F e v = Hand.Element.equal F e v ∧ GenElementAPI.equal_ev F e = Hand.Element.equal F e e ∧
     GenElementAPI.isIdentity F e = Hand.Element.isIdentity F e := ⟨rfl, rfl, rfl⟩
 
+/-- **C05 for the methods regenerated from `element.go` on this run**: `Equal` answers 1 exactly when the two elements are the
+same group element (whatever their representations), 0 otherwise, also with the receiver as its own argument; `IsIdentity`
+is true exactly for the identity -/
+theorem equality_regenerated (P Q : Pt L4) (hP : Valid P) (hQ : Valid Q) :
+    (GenElementAPI.equal_e_v F P Q = 1 ↔ G P = G Q) ∧
+    (GenElementAPI.equal_e_v F P Q = 0 ∨ GenElementAPI.equal_e_v F P Q = 1) ∧
+    GenElementAPI.equal_ev F P = 1 ∧
+    (GenElementAPI.isIdentity F P = true ↔ G P = 0) := by
+  obtain ⟨t1, t2, t3⟩ := api_methods_tied F P Q
+  rw [t1, t2, t3]
+  exact ⟨(equal_iff P Q hP hQ).1, (equal_iff P Q hP hQ).2, ((equal_iff P P hP hP).1).mpr rfl, isIdentity_iff P hP⟩
+
 end C05
